@@ -93,7 +93,7 @@ class C08(Property):
         for _ in range(rnd.randint(4, 14)):
             k = rnd.random()
             if npub == 0 or k < 0.45:
-                tcur += rnd.choice([1, 2, 3, 5, 10, 60, 3600])
+                tcur += rnd.choice([1, 2, 3, 5, 10, 60, 3600, 3600, 90000, 200000, 604800])  # also gaps of more than a day
                 events.append(["push", tcur, rnd.choice(forms)])
                 npub += 1
             elif k < 0.55:
